@@ -391,12 +391,15 @@ Definition variant_spec_ok (shared : option fmt_attr) : bool :=
                              (placeholders_by_arg sa variant_ident))
   end.
 
-(** one variant of [expand_enum] ([display.rs:330-384]): body and bounds, or a diagnostic *)
+(** one variant of [expand_enum] ([display.rs:340-390]): body and bounds, or a diagnostic.
+    The unit/non-Display refusal applies only when no enum-level format covers the variant: there is none, or it
+    wraps via [_variant] ([map_or(true, |fmt| fmt.contains_arg("_variant"))], fix 3d5b8b4) *)
 Definition d_expand_variant (d : dexpansion) : result (body * list bound) :=
   if negb (variant_spec_ok (d_shared d)) then RErr E_variant_spec
   else if (match d_fmt d with None => true | Some _ => false end)
           && (match fl (d_fields d) with [] => true | _ => false end)
           && negb (trait_eqb (d_trait d) TrDisplay)
+          && (match d_shared d with None => true | Some sa => contains_arg sa variant_ident end)
   then RErr E_unit_variant_non_display
   else match d_generate_body d with
        | RErr c => RErr c
